@@ -22,7 +22,8 @@ RcInit == [size |-> [q \in Rings |-> MAXQ], avail |-> [q \in Rings |-> 0], used 
 RcVerdict(s, a) ==
     CASE a.op \in {"set_vring_num", "set_vring_base", "get_vring_base", "set_vring_addr", "set_vring_call", "set_vring_kick"} /\ a.q \notin Rings -> "must_fail"
       [] a.op = "set_vring_num" -> IF a.n >= 1 /\ a.n <= MAXQ /\ IsPow2(a.n) THEN "must_ok" ELSE "must_fail"
-      [] a.op = "set_vring_addr" -> IF s.hasMem THEN "must_ok" ELSE "must_fail"
+      \* a.n = 1: the descriptor table is placed at the first user address past the mapped region ("just outside")
+      [] a.op = "set_vring_addr" -> IF s.hasMem /\ a.n = 0 THEN "must_ok" ELSE "must_fail"
       [] a.op = "set_features" -> IF a.bits \subseteq Offered THEN "must_ok" ELSE "must_fail"
       [] OTHER -> "must_ok"
 
